@@ -35,4 +35,23 @@ theorem i64Add_of_fits {a b : Int} (h1 : -9223372036854775808 ≤ a + b) (h2 : a
 theorem i64Sub_of_fits {a b : Int} (h1 : -9223372036854775808 ≤ a - b) (h2 : a - b < 9223372036854775808) :
     i64Sub a b = a - b := wrapI64_of_fits h1 h2
 
+theorem u64Div_pos {a b : Nat} (h : b ≠ 0) : u64Div a b = pure (a / b) := by
+  unfold u64Div; rw [if_neg h]; rfl
+theorem u64Mod_pos {a b : Nat} (h : b ≠ 0) : u64Mod a b = pure (a % b) := by
+  unfold u64Mod; rw [if_neg h]; rfl
+theorem u64Add_of_fits {a b : Nat} (h : a + b < 18446744073709551616) : u64Add a b = a + b := by
+  unfold u64Add two64; exact Nat.mod_eq_of_lt h
+theorem u64Sub_of_le {a b : Nat} (h : b ≤ a) (ha : a < 18446744073709551616) : u64Sub a b = a - b := by
+  unfold u64Sub wrapU64 two64; omega
+
+/-! ### loops -/
+
+/-- a loop whose body appends one element computed from the loop variable builds `map` -/
+theorem forIn_append_map {α β : Type} (l : List α) (g : α → β) (init : List β) :
+    forIn (m := M) l init (fun i s => pure (ForInStep.yield (s ++ [g i]))) = pure (init ++ l.map g) := by
+  induction l generalizing init with
+  | nil => simp
+  | cons a l ih =>
+    simp only [List.forIn_cons, pure_bind, ih, List.map_cons, List.append_assoc, List.singleton_append]
+
 end Comdex.GoSem
